@@ -893,7 +893,11 @@ impl<'de> de::Deserializer<'de> for &mut Deserializer<'de> {
             // construct types
             TypeInner::Opt(_) => self.deserialize_option(visitor),
             // This is an optimization for blob, mostly likely used by IDLValue, but it won't help the native Vec<u8>
-            TypeInner::Vec(_) if self.expect_type.is_blob(&self.table) => {
+            // Only when the wire side is a blob as well: any other vector goes element by element, so that
+            // an empty vector of some other element type still decodes to the empty blob.
+            TypeInner::Vec(_)
+                if self.expect_type.is_blob(&self.table) && self.wire_type.is_blob(&self.table) =>
+            {
                 self.deserialize_blob(visitor)
             }
             TypeInner::Vec(_) => self.deserialize_seq(visitor),
